@@ -46,12 +46,15 @@ def cases(tier, seed):
         # quick: two equation parameters for the 2^9 / 2^12 cubes, one for the non-stationary 2^10 cube
         eqs = ["a", "b"] if (tier == "thorough" or kind != "nonstatio") else ["a"]
         out.append(dict(type="cube", kind=kind, eq=eqs, quick=tier == "quick"))
+        out.append(dict(type="cube", kind=kind, eq=[], quick=tier == "quick"))  # forward problem: eq_params == {}
         out.append(dict(type="strings", kind=kind, eq=eqs))
         out.append(dict(type="system", kind=kind, eq=BOUNDS[tier]["eq"]))
     return [c for c in out if not (c["type"] == "system" and c["kind"] != "ode")]
 
 
 def out_tr(inp, out, p):
+    if "a" not in p.eq_params:
+        return out + 0.1 * jnp.sum(inp)
     r = out * (1.0 + 0.3 * p.eq_params["a"]) + 0.1 * jnp.sum(inp)
     if "b" in p.eq_params:
         r = r + 0.2 * p.eq_params["b"] * jnp.sum(inp) ** 2
@@ -62,7 +65,8 @@ def build(kind, eqs, dk=None):
     d = 1
     u, coef, expo = L.make_u(kind, d, 1, deg=2, salt=5, output_transform=out_tr)
     eqp = {"b": jnp.asarray(-0.4)} if "b" in eqs else {}
-    eqp["a"] = jnp.asarray(0.7)  # non-alphabetical insertion order
+    if "a" in eqs:
+        eqp["a"] = jnp.asarray(0.7)  # non-alphabetical insertion order
     params = Params(nn_params=u.init_params(), eq_params=eqp)
     nv = L.nvar_of(kind, d)
     pts = L.points(3, nv)
@@ -87,20 +91,20 @@ def build(kind, eqs, dk=None):
 class EqODE(jinns.loss.ODE):
     def equation(self, t, u, params):
         du = jax.jacfwd(lambda tt: u(tt, params))(t).reshape(-1)
-        return du + params.eq_params["a"] * u(t, params) ** 2 + params.eq_params.get("b", 0.0) * t
+        return du + params.eq_params.get("a", 0.5) * u(t, params) ** 2 + params.eq_params.get("b", 0.0) * t
 
 
 class EqStatio(jinns.loss.PDEStatio):
     def equation(self, x, u, params):
         g = jax.jacfwd(lambda xx: u(xx, params))(x).reshape(-1)
-        return g[:1] + params.eq_params["a"] * u(x, params) ** 2 + params.eq_params.get("b", 0.0) * x[0]
+        return g[:1] + params.eq_params.get("a", 0.5) * u(x, params) ** 2 + params.eq_params.get("b", 0.0) * x[0]
 
 
 class EqNonStatio(jinns.loss.PDENonStatio):
     def equation(self, t, x, u, params):
         g = jax.jacfwd(lambda xx: u(t, xx, params))(x).reshape(-1)
         gt = jax.jacfwd(lambda tt: u(tt, x, params))(t).reshape(-1)
-        return gt + g[:1] + params.eq_params["a"] * u(t, x, params) ** 2 + params.eq_params.get("b", 0.0) * x[0]
+        return gt + g[:1] + params.eq_params.get("a", 0.5) * u(t, x, params) ** 2 + params.eq_params.get("b", 0.0) * x[0]
 
 
 EQ = {"ode": EqODE, "statio": EqStatio, "nonstatio": EqNonStatio}
@@ -286,12 +290,22 @@ def run_system(case):
         return [np.concatenate([np.ravel(x) for x in jax.tree_util.tree_leaves(g.nn_params[n])]) for n in names] + [np.asarray(g.eq_params[e]).reshape(1) for e in eqs]
 
     def term_grads(ui, ti):
-        m = [[[False] * nG for _ in range(2)] for _ in range(2)]
-        m[ui][ti] = [True] * nG
-        return fg(mk(m))
+        """reference: gradient of term ti of the *single* LossODE of unknown ui (all groups selected), laid out like fg()"""
+        n_ = names[ui]
+        p1 = jinns.parameters.Params(nn_params=pd.nn_params[n_], eq_params=pd.eq_params)
+        dk1 = DerivativeKeysODE.from_str(params=p1, dyn_loss="both", initial_condition="both", observations="both")
+        ic1 = {"u": (0.3, jnp.asarray([0.2])), "v": (0.1, jnp.asarray([-0.3]))}[n_]
+        single = L.quiet(jinns.loss.LossODE, u=us[n_], dynamic_loss=None, initial_condition=ic1, derivative_keys=dk1, params=p1)
+        sb = L.make_batch("ode", L.points(2, 1), obs=obs[n_])
+        g = jax.grad(lambda p: single.evaluate(p, sb)[1][terms[ti]])(p1)
+        out = [np.zeros_like(np.concatenate([np.ravel(x) for x in jax.tree_util.tree_leaves(pd.nn_params[m])])) for m in names]
+        out[ui] = np.concatenate([np.ravel(x) for x in jax.tree_util.tree_leaves(g.nn_params)])
+        return out + [np.asarray(g.eq_params[e]).reshape(1) for e in eqs]
 
     v = []
     ref = {(ui, ti): term_grads(ui, ti) for ui in range(2) for ti in range(2)}
+    if any(not np.any(np.abs(ref[k][2 + j]) > 1e-8) for k in ref for j in range(len(eqs))):
+        raise RuntimeError("vacuous system reference gradients")
     n = 0
     cube = list(itertools.product([True, False], repeat=2 * nG))
     for ui in range(2):
